@@ -174,6 +174,20 @@ CHECKS["C18"] = dict(
         "Task objects over the same store, not a new OS process.",
    design="6/C18", technique=TECH)
 
+CHECKS["C16"] = dict(
+   text=("Backends.tla: the documented contract of orchestrator / blocking control / broker / state backend / trigger store / "
+         "client data store as Apply(state, operation) -> (state, answer) over 67 public methods (written from the base-class "
+         "docstrings and the lifecycle oracle), explored on its own (MC_Backends). Every operation sequence is applied call by "
+         "call, under one controlled clock, to a memory and a SQLite application with the same named invocations / runners / "
+         "conditions / triggers: every sequence of length 1 and 2 over the concrete alphabet after four prepared states "
+         "(exhaustive in the thorough tier, sampled pairs in the quick tier), generated system lives (register, wait, valid status "
+         "paths, purge period, auto-purge, second round) and seeded random sequences of 150-400 operations with clock jumps onto "
+         "the timeouts. BackendsTrace.tla steps the model and compares answer with answer, answer with model, and a full "
+         "read-out of both applications with each other and with the model state after every call."),
+   note="Situations the contract leaves open are named by the model (S.notes) and reported as known findings; after the first "
+        "divergence the rest of a trace is not compared. Redis / MongoDB plugins are not in this repository.",
+   design="6/C16", technique=TECH)
+
 NOT_YET = {}
 
 def main() -> None:
